@@ -32,6 +32,10 @@
 
 use crate::dto::{InputNodeDto, OutputNodeDto, WrappedValue};
 use crate::errors::*;
+use actix_web::body::{Body, ResponseBody};
+use actix_web::dev::ServiceResponse;
+use actix_web::http::{header, HeaderValue, StatusCode};
+use actix_web::middleware::errhandlers::{ErrorHandlerResponse, ErrorHandlers};
 use actix_web::web::Json;
 use actix_web::{error, get, post, web, App, HttpResponse, HttpServer};
 use dmntk_common::{DmntkError, Jsonify, Result};
@@ -312,6 +316,20 @@ async fn post_evaluate(params: web::Path<EvaluateParams>, request_body: String, 
   }
 }
 
+/// Handler for error responses prepared by the framework itself (a request body that is not valid UTF-8
+/// or exceeds the size limit is rejected before any endpoint is called): the plain text of such
+/// a response is replaced with JSON, the same way as all other errors are reported.
+fn json_error_response<B>(response: ServiceResponse<B>) -> actix_web::Result<ErrorHandlerResponse<B>> {
+  if response.headers().get(header::CONTENT_TYPE).map_or(false, |value| value.as_bytes().starts_with(b"application/json")) {
+    return Ok(ErrorHandlerResponse::Response(response));
+  }
+  let reason = response.status().canonical_reason().unwrap_or("request rejected");
+  let body = ResultDto::<String>::error(err_internal_error(reason)).to_string();
+  let mut response = response.map_body(|_, _| ResponseBody::Other(Body::from(body)));
+  response.headers_mut().insert(header::CONTENT_TYPE, HeaderValue::from_static("application/json"));
+  Ok(ErrorHandlerResponse::Response(response))
+}
+
 /// Handler for 404 errors.
 async fn not_found() -> std::io::Result<Json<ResultDto<()>>> {
   Ok(Json(ResultDto::error(err_endpoint_not_found())))
@@ -327,6 +345,11 @@ pub async fn start_server(opt_host: Option<String>, opt_port: Option<String>, op
   println!("dmntk {}", address);
   HttpServer::new(move || {
     App::new()
+      .wrap(
+        ErrorHandlers::new()
+          .handler(StatusCode::BAD_REQUEST, json_error_response)
+          .handler(StatusCode::PAYLOAD_TOO_LARGE, json_error_response),
+      )
       .app_data(application_data.clone())
       .app_data(web::JsonConfig::default().limit(4 * 1024 * 1024).error_handler(|err, _| {
         error::InternalError::from_response(
